@@ -6,21 +6,14 @@ abbrev C := Cx Float
 
 def cOf (re im : Float) : C := ⟨re, im⟩
 
-/-- complex vector from two float lists -/
-def cvec (re im : List Float) : V C :=
-  let a := (re.zip im).toArray
-  fun i => match a[i]? with
-    | some (r, m) => ⟨r, m⟩
-    | none => 0
+/-- complex array from two float lists (materialised once; the accessors below only index into it) -/
+def carr (re im : List Float) : Array C := ((re.zip im).map (fun (p : Float × Float) => (⟨p.1, p.2⟩ : C))).toArray
 
-/-- complex matrix (row-major, `n` columns) from two float lists -/
-def cmat (n : Nat) (re im : List Float) : Nat → Nat → C :=
-  let a := (re.zip im).toArray
-  fun i j => if j < n then
-      match a[i * n + j]? with
-      | some (r, m) => ⟨r, m⟩
-      | none => 0
-    else 0
+/-- vector view of an array (zero beyond its size) -/
+def vecOf (a : Array C) : V C := fun i => a.getD i 0
+
+/-- row-major matrix view with `n` columns -/
+def matOf (n : Nat) (a : Array C) : Nat → Nat → C := fun i j => if j < n then a.getD (i * n + j) 0 else 0
 
 def jC (z : C) : Json := jArr [jF z.re, jF z.im]
 
@@ -37,34 +30,40 @@ def parseLeaf (j : Json) : Option (Op C) := do
   | "pq" =>
     let nin ← fNat? j "nin"
     let nout ← fNat? j "nout"
-    let eP := cmat nin (← fFloats? j "ePr") (← fFloats? j "ePi")
-    let eQ := cmat nin (← fFloats? j "eQr") (← fFloats? j "eQi")
-    let aP := cmat nout (← fFloats? j "aPr") (← fFloats? j "aPi")
-    let aQ := cmat nout (← fFloats? j "aQr") (← fFloats? j "aQi")
+    let ePa := carr (← fFloats? j "ePr") (← fFloats? j "ePi")
+    let eQa := carr (← fFloats? j "eQr") (← fFloats? j "eQi")
+    let aPa := carr (← fFloats? j "aPr") (← fFloats? j "aPi")
+    let aQa := carr (← fFloats? j "aQr") (← fFloats? j "aQi")
+    let eP := matOf nin ePa
+    let eQ := matOf nin eQa
+    let aP := matOf nout aPa
+    let aQ := matOf nout aQa
     some { nin := nin, nout := nout,
-           eval := fun x => memo nout (Op.pqMap nin eP eQ x),
-           adj := fun y => memo nin (Op.pqMap nout aP aQ y) }
+           eval := Op.pqMap nin eP eQ,
+           adj := Op.pqMap nout aP aQ }
   | "mat" =>
     let m ← fNat? j "m"
     let n ← fNat? j "n"
-    some (Op.mat m n (cmat n (← fFloats? j "Mr") (← fFloats? j "Mi"))).memo
+    let Ma := carr (← fFloats? j "Mr") (← fFloats? j "Mi")
+    some (Op.mat m n (matOf n Ma))
   | "circ" =>
     let k ← fNat? j "k"
     let n ← fNat? j "n"
-    let h := cvec (← fFloats? j "hr") (← fFloats? j "hi")
-    some (Op.circBatch k n h).memo
+    let ha := carr (← fFloats? j "hr") (← fFloats? j "hi")
+    some (Op.circBatch k n (vecOf ha))
   | "scat" =>
     -- one scatter term of the 2-D projector: raw (possibly negative) indices, `fixIdx` as the code does
     let np ← fNat? j "np"
     let ny ← fNat? j "ny"
     let idx := (← fInts? j "I").toArray
     let off ← fInt? j "off"
-    let w := cvec (← fFloats? j "w") ((← fFloats? j "w").map (fun _ => 0.0))
+    let wa := carr (← fFloats? j "w") ((← fFloats? j "w").map (fun _ => 0.0))
+    let w := vecOf wa
     let I : Nat → Nat := fun p => match idx[p]? with
       | some v => fixIdx ny v + off.toNat
       | none => ny
     let exact ← fBool? j "exact"
-    some (if exact then (Op.scatFill np ny I w).memo else (Op.scatClamp np ny I w).memo)
+    some (if exact then Op.scatFill np ny I w else Op.scatClamp np ny I w)
   | "scat2" =>
     -- one scatter term of the 3-D projector on a (d0,d1) detector: negative corner indices are replaced by
     -- max(d0,d1) (`jnp.where(ul_ind < 0, max(output_shape), ul_ind)`), then the offsets (da,db) are added
@@ -76,7 +75,8 @@ def parseLeaf (j : Json) : Option (Op C) := do
     let da ← fNat? j "da"
     let db ← fNat? j "db"
     let big := max d0 d1
-    let w := cvec (← fFloats? j "w") ((← fFloats? j "w").map (fun _ => 0.0))
+    let wa := carr (← fFloats? j "w") ((← fFloats? j "w").map (fun _ => 0.0))
+    let w := vecOf wa
     let fa : Nat → Nat := fun p => match ia[p]? with
       | some v => fixIdx big v + da
       | none => big
@@ -87,10 +87,10 @@ def parseLeaf (j : Json) : Option (Op C) := do
     let ev := scatterAddDrop np (d0 * d1) (fun p => flat2 d0 d1 (fa p) (fb p)) w
     some (if exact then
         ({ nin := np, nout := d0 * d1, eval := ev,
-           adj := gatherFill0 (d0 * d1) (fun p => flat2 d0 d1 (fa p) (fb p)) w } : Op C).memo
+           adj := gatherFill0 (d0 * d1) (fun p => flat2 d0 d1 (fa p) (fb p)) w } : Op C)
       else
         ({ nin := np, nout := d0 * d1, eval := ev,
-           adj := gatherAt (fun p => clamp2 d0 d1 (fa p) (fb p)) w } : Op C).memo)
+           adj := gatherAt (fun p => clamp2 d0 d1 (fa p) (fb p)) w } : Op C))
   | _ => none
 
 partial def parseExpr (j : Json) : Option (Expr C) := do
@@ -141,9 +141,9 @@ def handler : Handler := fun op j =>
   | "ip" => do
     -- the pairing itself (tie of `ip` with `snp.sum(y.conj() * u)` of valid_adjoint)
     let n ← fNat? j "n"
-    let u := cvec (← fFloats? j "ur") (← fFloats? j "ui")
-    let w := cvec (← fFloats? j "wr") (← fFloats? j "wi")
-    some (ok (jC (ip n u w)))
+    let ua := carr (← fFloats? j "ur") (← fFloats? j "ui")
+    let wa := carr (← fFloats? j "wr") (← fFloats? j "wi")
+    some (ok (jC (ip n (vecOf ua) (vecOf wa))))
   | _ => none
 
 def main : IO Unit := mainLoop handler
